@@ -108,6 +108,7 @@ Proof.
   induction f; simpl; intros; [discriminate|].
   destruct (alnum (d + 1)); [apply IHf in H; lia | inversion H; lia].
 Qed.
+Local Opaque next_delim.
 Lemma find_delim_sound : forall alnum t d comb d', find_delim alnum t d comb = Some d' -> memc d' comb = false /\ d <= d'.
 Proof.
   induction t; simpl; intros d comb d' H.
@@ -117,6 +118,7 @@ Proof.
       apply IHt in H as [H1 H2]. split; [auto | lia].
     + inversion H; subst; split; [auto | lia].
 Qed.
+Local Transparent next_delim.
 Lemma memc_flat_map : forall {A} d (f : A -> str) l a, memc d (flat_map f l) = false -> In a l -> memc d (f a) = false.
 Proof.
   unfold memc. induction l; simpl; intros; [contradiction|].
@@ -136,8 +138,8 @@ Qed.
 (* ---------- top-level shortcut: a name that starts with a fresh delimiter is not a top-level key ---------- *)
 Lemma dget_fresh : forall d s top, (forall k v, In (KS k, v) top -> memc d k = false) -> dget (KS (d :: s)) top = None.
 Proof.
-  induction top as [|[k v] r IH]; intros H; [reflexivity|]. simpl.
-  destruct k as [k| | |]; simpl.
+  induction top as [|[k v] r IH]; intros H; [reflexivity|].
+  destruct k as [k| | |]; cbn [dget key_eq key_num].
   - destruct (seqb (d :: s) k) eqn:E.
     + apply seqb_eq in E. subst. specialize (H (d :: s) v (or_introl eq_refl)). unfold memc in H. simpl in H.
       rewrite N.eqb_refl in H. discriminate.
@@ -156,8 +158,11 @@ Lemma names_retrieve_core_p : forall alnum top d ks x,
   lookup alnum top (mkname d (map KS ks)) = Ok x /\ contains alnum top (mkname d (map KS ks)) = Ok true.
 Proof.
   intros alnum top d ks x Ha Hd Hne Hf Hn Ht Hw.
-  unfold lookup, contains. unfold mkname at 1 3. rewrite (dget_fresh d _ top Ht).
-  rewrite name_split_p by auto. unfold walk1. destruct ks; [congruence|]. simpl map in *. rewrite Hw. split; reflexivity.
+  set (n := mkname d (map KS ks)).
+  assert (Hg : dget (KS n) top = None) by (unfold n, mkname; apply dget_fresh; auto).
+  assert (Hs : split_key alnum n = Ok (map KS ks)) by (apply name_split_p; auto).
+  unfold lookup, contains. rewrite Hg, Hs. unfold walk1.
+  destruct ks as [|k0 r]; [congruence|]. cbn [map] in *. rewrite Hw. split; reflexivity.
 Qed.
 
 Lemma top_keys_in_tuples : forall top k v, In (k, v) top -> In ([k], v) (tuples (CDict top)).
@@ -166,6 +171,13 @@ Proof.
   destruct H as [H|H].
   - inversion H; subst. left. reflexivity.
   - right. apply in_or_app. right. apply IH; auto.
+Qed.
+
+Lemma tuples_nonempty : forall top x, ~ In ([], x) (tuples (CDict top)).
+Proof.
+  intros top x. simpl. induction top as [|[k v] r IH]; simpl; intros H; [auto|].
+  destruct H as [H|H]; [discriminate|]. apply in_app_or in H as [H|H]; [|auto].
+  apply in_map_iff in H as [[t y] [H _]]. discriminate.
 Qed.
 
 Lemma names_retrieve_partial_p : forall alnum top d l ks x,
@@ -181,9 +193,7 @@ Proof.
   split.
   - subst l. unfold names_with. apply in_map_iff. exists (map KS ks, x). split; auto.
   - assert (Hne : ks <> []).
-    { intro; subst. simpl in Hw. inversion Hw; subst. clear -Hi. simpl in Hi.
-      induction top as [|[k v] r IH]; simpl in Hi; [auto|]. destruct Hi as [Hi|Hi]; [discriminate|].
-      apply in_app_or in Hi as [Hi|Hi]; [|auto]. apply in_map_iff in Hi as [[t y] [Hi _]]. discriminate. }
+    { intro; subst ks. exact (tuples_nonempty _ _ Hi). }
     assert (Hd : d <> BS).
     { destruct ks as [|k0 r]; [congruence|]. eapply (default_delim_fresh alnum top d l _ x (KS k0) Hn Hi). left; reflexivity. }
     apply names_retrieve_core_p; auto.
